@@ -20,6 +20,8 @@ Record fm : Type := mkFm {
 (** The implementer that overrides nothing. *)
 Definition fm_default : fm := mkFm None None None None None None None None None None.
 
+Definition is_numeric (l : lit) : bool := match l with LInt _ _ | LFloat _ _ => true | _ => false end.
+
 Section Defaults.
   Variable F : fm.
 
@@ -61,7 +63,8 @@ Section Defaults.
     map_err (with_span (i_span (einfo e)))
       (match e with
        | ELit i l => from_value i l
-       | ENeg i l => from_value i l        (* -1 before another item means the literal -1 *)
+       | ENeg i l =>                       (* -1 before another item means the literal -1; only numbers negate *)
+           if is_numeric l then from_value i l else Err (unexpected_expr_type (ENeg i l))
        | EGroup _ g => default_from_expr g
        | _ => Err (unexpected_expr_type e)
        end).
